@@ -903,7 +903,8 @@ def judge(case, col):
         exp_params[mi] = (prm, ps, ps_key)
 
     typed = lambda d: {k: (type(v).__name__, v) for k, v in d.items()}
-    on_consumed = {}          # atom id of an ON clause -> did it become a column mapping / an argument of its model
+    on_consumed = {}          # atom id of an ON clause -> did it become a column mapping / an argument of its model (None: either)
+    on_one_of = []            # groups of atom ids of which at least one has to be consumed
 
     for mi in models:
         s = step_of.get(mi)
@@ -1030,8 +1031,12 @@ def judge(case, col):
                 exp_cm[cname] = got_cm[cname]          # two columns for one model column: one of them (the other one stays a condition)
             else:
                 exp_cm[cname] = vals[-1]
+            same = [aid for aid, x in grp if got_cm.get(cname) == x]
             for aid, x in grp:
-                on_consumed[aid] = got_cm.get(cname) == x
+                # the same mapping written twice: one of them is the mapping, a further one may stay a (redundant) condition
+                on_consumed[aid] = (got_cm.get(cname) == x) if len(same) < 2 else (None if aid in same else False)
+            if len(same) >= 2:
+                on_one_of.append(same)
         for aid, (m_, cname, cval, lab) in on_args.items():
             if m_ == mi:
                 on_consumed[aid] = cname in got_rd and typed({cname: cval}) == typed({cname: got_rd[cname]})
@@ -1082,7 +1087,10 @@ def judge(case, col):
                     feats.append('on:duplicate-mapping')
             if a['id'] in on_args:
                 feats += ['atom:' + on_args[a['id']][3], 'clause:on']
-            if on_consumed.get(a['id']):
+            if on_consumed.get(a['id'], False) is None:
+                if g != NEUTRAL and g != atom_abs(a):
+                    rec('join-condition', 'changed', feats, f'`{q.atom_text(a)}` became {g}: {cond.to_string()}')
+            elif on_consumed.get(a['id']):
                 if g != NEUTRAL:
                     rec('join-condition', 'not-neutralised', feats, f'`{q.atom_text(a)}` became a column mapping / an argument '
                         f'of the model and is still a join condition: {cond.to_string()}')
@@ -1090,6 +1098,10 @@ def judge(case, col):
                 site = 'neutralised' if (isinstance(g, tuple) and len(g) == 4 and g[2] == c_abs(0) and g[3] == c_abs(0)) else 'changed'
                 rec('join-condition', site, feats, f'`{q.atom_text(a)}` ({c}) of the ON clause of {q.item_text(j)} is neither '
                     f'mapped nor passed to the model but became {g}: {cond.to_string()}')
+        for grp in on_one_of:
+            if all(aid in got_at for aid in grp) and not any(got_at[aid] == NEUTRAL for aid in grp):
+                rec('join-condition', 'not-neutralised', jfeat + ['atom:mapping'], f'the mapping written {len(grp)} times is '
+                    f'still a join condition: {cond.to_string()}')
 
     # ---- (2) the outer filter
     last = plan.steps[-1]
